@@ -152,6 +152,23 @@ int VMMon::ctx_id(runtime& r, context& c)
     return -1;
 }
 
+Shadow& VMMon::shadow_of(runtime& r, context& c)
+{
+    int id;
+    if (last_ctx == &c && last_ctx_id >= 0 && (size_t)last_ctx_id < ctx_ids.size() && ctx_ids[last_ctx_id].lock().get() == &c)
+    {
+        id = last_ctx_id;
+    }
+    else
+    {
+        id = ctx_id(r, c);
+        last_ctx = &c; last_ctx_id = id;
+    }
+    if (id < 0) { shadow_unknown.valid = false; return shadow_unknown; }
+    if (shadows.size() <= (size_t)id) shadows.resize((size_t)id + 1);
+    return shadows[(size_t)id];
+}
+
 static void viol(VMMon& m, const std::string& what)
 {
     if (m.stack_viol.size() < 20) m.stack_viol.push_back(what);
@@ -275,8 +292,9 @@ static void h_exec_leave(runtime& r, int res)
     }
     if (m->mon_stack)
     {
-        auto& sh = m->shadow;
-        sh.valid = false; // context may switch; next slice starts a fresh shadow
+        // the shadows are kept per script: when a script gets its next slice, the transition from its last observed state
+        // is checked like any other (nothing may have touched its operands while it was switched out)
+        (void)m;
     }
 }
 static void h_before(runtime& r, context& c, const instruction& ins)
@@ -296,7 +314,7 @@ static void h_before(runtime& r, context& c, const instruction& ins)
     }
     if (m->mon_stack)
     {
-        auto& sh = m->shadow;
+        auto& sh = m->shadow_of(r, c);
         snap(c, tl_snap);
         check_transition(*m, sh, c, tl_snap, &ins, false);
         sh.s = tl_snap; sh.ctx = &c; sh.valid = true;
@@ -312,7 +330,7 @@ static void h_after(runtime& r, context& c, const instruction& ins)
     if (m->tick_ns) vclock::advance_ns(m->tick_ns);
     if (m->mon_stack)
     {
-        auto& sh = m->shadow;
+        auto& sh = m->shadow_of(r, c);
         snap(c, tl_snap);
         check_transition(*m, sh, c, tl_snap, &ins, true);
         if (dynamic_cast<const sqf::opcodes::end_statement*>(&ins))
@@ -334,7 +352,7 @@ static void h_frame_done(runtime& r, context& c, bool forwarded)
     if (forwarded) m->frames_forwarded++;
     if (m->mon_stack)
     {
-        auto& sh = m->shadow;
+        auto& sh = m->shadow_of(r, c);
         snap(c, tl_snap);
         if (sh.valid && sh.ctx == &c && sh.s.bases.size() == tl_snap.bases.size() + 1)
         {
